@@ -71,7 +71,7 @@ class SimProblem(Problem):
         self.track_alias = False
         self.x0_bytes = None
         self.is_const_J = not np.any(um.B)
-        self.is_const_H = (not np.any(um.a)) and (not np.any(um.B)) and um.dom is None
+        self.is_const_H = (not np.any(um.a)) and (not np.any(um.B)) and um.dom is None and um.expo is None
 
     # ---- fault plan
     def _fault_for(self, comp, k, x):
